@@ -24,7 +24,7 @@ Apply(s, e) ==
       [] e.ev = "ret"     -> PRet(s, e.id, e.res, e.val, e.err)
       [] e.ev = "panic"   -> PPanic(s, e.id)
       [] e.ev = "enter"   -> PEnter(s, e.n)
-      [] e.ev = "leave"   -> PLeave(s, e.n, e.out, e.rel)
+      [] e.ev = "leave"   -> PLeaveZ(s, e.n, e.out, e.rel, IF "zero" \in DOMAIN e THEN e.zero ELSE FALSE)
       [] e.ev = "cb"      -> PCbk(s, e.ref, e.res, e.val, e.err)
       [] e.ev = "rel"     -> PRel(s, e.n, e.tgt)
       [] e.ev = "relcall" -> PRelCall(Dirty(s), e.n, e.inside)
